@@ -83,6 +83,8 @@ MUTANTS = [
      "    pairs = [(formula(args[i]), args[i+1])\n             for i in range(0, len(args), 2)]\n    result = _mix_by_weight_pairs(pairs)", "table= dropped"),
     ("C10", "silent", F, "    pairs = [(formula(args[i], table=table), args[i+1])\n             for i in range(0, len(args), 2)]\n    result = _mix_by_weight_pairs(pairs)",
      "    pairs = [(formula(args[i], None, None, None, table), args[i+1])\n             for i in range(0, len(args), 2)]\n    result = _mix_by_weight_pairs(pairs)", "table passed positionally"),
+    ("C10", "fire", X, "    def _cache_xray(el):\n        if '_xray' not in el.__dict__ and isinstance(el, (Element, Ion)):\n            el._xray = Xray(el)\n        return el._xray",
+     "    xray_objects = {}\n    def _cache_xray(el):\n        if el not in xray_objects:\n            xray_objects[el] = Xray(el)\n        return xray_objects[el]", "Xray objects kept in a map local to each init call"),
     # ---- C11
     ("C11", "fire", F, "        scale = min(q*f.density/f.mass for f, q in pairs)\n        for f, q in pairs:\n            result += ((q*f.density/f.mass)/scale) * f",
      "        scale = min(q*f.density/f.mass for f, q in pairs)\n        for f, q in pairs:\n            result += ((q/f.density/f.mass)/scale) * f", "density divides"),
